@@ -89,13 +89,15 @@ STANDARD = ref.standard_macros(P)
 
 
 def _yes(value):
+    if value == 'boom':
+        raise ValueError('validation function fails on this value')
     return value == 'yes'
 
 
 # The alphabet of profiles.  NEVER hand these dictionaries to the library (addProfile works on the caller's dictionary).
 RAW = {
     'P1': ({'x-one': r'{int}', 'x-len': r'{length}|auto', 'x-col': r'{color}', 'x-fn': _yes}, {}),  # new properties
-    'P2': ({'color': r'abc|{namedcolor}', 'width': r'wide|{length}'}, {}),  # redefines existing properties
+    'P2': ({'color': r'abc|{namedcolor}', 'width': r'wide|{length}', 'x-fn': r'boom|maybe'}, {}),  # redefines existing properties (and one of P1: a function there)
     'P3': ({'x-three': r'{int}|{m3}'}, {'int': r'q\d+', 'm3': r't'}),  # overrides a token macro
     'P4': ({'x-four': r'{length}'}, {'length': r'0|{num}zz'}),  # overrides a general macro
     'P5': ({'x-five': r'{m5}', 'x-five-n': r'{m5}{int}'}, {'m5': r'a|b'}),  # private macro
@@ -120,7 +122,7 @@ BATTERY = [
     ('x-one', '1'), ('x-one', 'q1'), ('x-one', 'a'),
     ('x-len', '1px'), ('x-len', '1zz'), ('x-len', 'auto'),
     ('x-col', 'red'), ('x-col', 'currentcolor'), ('x-col', 'rgba(1,2,3,.5)'),
-    ('x-fn', 'yes'), ('x-fn', 'no'),
+    ('x-fn', 'yes'), ('x-fn', 'no'), ('x-fn', 'boom'), ('x-fn', 'maybe'),
     ('x-three', '1'), ('x-three', 'q1'), ('x-three', 't'),
     ('x-four', '1px'), ('x-four', '1zz'),
     ('x-five', 'a'), ('x-five', 'c'), ('x-five-n', 'a1'), ('x-five-n', 'cq1'),
@@ -265,7 +267,24 @@ def _exc(e):
     return guard.crash_site(e)
 
 
+class _quiet:
+    """verdicts are asked in the log-only mode (the mode every parse runs in): a validation function that raises is reported
+    to the log and simply does not accept"""
+
+    def __enter__(self):
+        self.old = cssutils.log.raiseExceptions
+        cssutils.log.raiseExceptions = False
+
+    def __exit__(self, *a):
+        cssutils.log.raiseExceptions = self.old
+
+
 def observe(w):
+    with _quiet():
+        return _observe(w)
+
+
+def _observe(w):
     """everything the property talks about, through the public interface only"""
     p = w.p
     val, vwp = [], []
@@ -572,16 +591,17 @@ def judge_default(w, obs0, state_ok, value, clauses):
         return [Finding('C14.defaults', _exc(e) + '-on-assignment', 'no exception', repr(e))]
     val, vwp = [], []
     p = w.p
-    for n, v in BATTERY:
-        try:
-            val.append(bool(p.validate(n, v)))
-        except Exception as e:
-            val.append(_exc(e))
-        try:
-            a, b, c = p.validateWithProfile(n, v)
-            vwp.append([bool(a), bool(b), list(c)])
-        except Exception as e:
-            vwp.append(_exc(e))
+    with _quiet():
+        for n, v in BATTERY:
+            try:
+                val.append(bool(p.validate(n, v)))
+            except Exception as e:
+                val.append(_exc(e))
+            try:
+                a, b, c = p.validateWithProfile(n, v)
+                vwp.append([bool(a), bool(b), list(c)])
+            except Exception as e:
+                vwp.append(_exc(e))
     if val != obs0['val']:
         out.append(Finding('C14.defaults', 'validate-verdict-depends-on-defaults', 'validate() unchanged', _verdict_diffs(val, obs0['val'], 'validate')))
     base = obs0['val'] if not _first_exc(obs0['val']) else val
@@ -846,7 +866,8 @@ def observe_vwp_cached(w):
     out = []
     for n, v in BATTERY:
         try:
-            a, b, c = w.p.validateWithProfile(n, v)
+            with _quiet():
+                a, b, c = w.p.validateWithProfile(n, v)
             out.append([bool(a), bool(b), list(c)])
         except Exception as e:
             out.append(_exc(e))
